@@ -15,6 +15,19 @@ func init() {
 				maxMsgs = 12
 			}
 			sa, sb := genScenario(c, maxMsgs, c.Budget(6000, 40000))
+			if i == 1 {
+				// directed: one message whose compressed size is an exact multiple of the data block size
+				if o := exactMultipleMessage(c.Rng, sa.mycall, sb.mycall); o != nil && sb.policy[o.mid] == 0 {
+					dup := false
+					for _, x := range sa.outbox {
+						dup = dup || x.mid == o.mid
+					}
+					if !dup {
+						sa.outbox = append(sa.outbox, o)
+						c.Res.Distribution["directed:compressed-size-multiple-of-block"]++
+					}
+				}
+			}
 			if i%6 == 4 {
 				blockAlignedPolicies(c, sa, sb)
 			}
